@@ -38,6 +38,10 @@ STATEFUL = True
 
 FORMS = ("base", "newtype", "alias", "stralias", "final", "fwdref")
 EXTRA = ("fwdref_newtype", "fwdref_alias", "fwdref_stralias")  # "order" unit only
+# "chains" unit only: wrappers of wrappers (the unwrapped form is reached through two steps, in both nesting orders)
+CHAIN_FORMS = ("base", "nt_final", "nt_alias", "nt_stralias", "nt_nt", "final_nt", "alias_nt", "alias_final", "classvar", "fwdref")
+# "falsy" unit only: the stored values are falsy objects, pairwise unequal (a dict stores any value; None is not "absent")
+FALSY = (None, 0, "", (), frozenset(), b"")
 DEPTH3 = {"quick": 4, "thorough": 6}
 CLOSURE_CAP = 400_000  # states; the closure runs must end by exhaustion, not by this cap
 VIOL_CAP = 300  # violations analysed per unit (each is minimised); beyond it the unit stops
@@ -74,9 +78,9 @@ class Family:
         self.kind_of = [KINDS[c] for c in kinds]
         self.nb = nb = len(kinds)
         self.extended = extended
-        self.tag = "b" + kinds + ("x" if extended else "")
-        self.modname = "tlg_c16_" + self.tag
-        self.forms = FORMS + (EXTRA if extended else ())
+        self.tag = "b" + kinds + ({False: "", True: "x"}.get(extended) if isinstance(extended, bool) else "-" + extended)
+        self.modname = "tlg_c16_" + self.tag.replace("-", "_")
+        self.forms = CHAIN_FORMS if extended == "chains" else FORMS + (EXTRA if extended is True else ())
         src, exprs, names = ["import typing"], [], []
         for i, kind in enumerate(self.kind_of):
             lines, expr, name = _base_src(kind, i)
@@ -87,6 +91,14 @@ class Family:
                 f'AB{i} = typing.TypeAliasType("AB{i}", {expr})',
                 f'SB{i} = typing.TypeAliasType("SB{i}", "{name}")',
                 f"FB{i} = typing.Final[{expr}]",
+                f'NFB{i} = typing.NewType("NFB{i}", FB{i})',
+                f'NAB{i} = typing.NewType("NAB{i}", AB{i})',
+                f'NSB{i} = typing.NewType("NSB{i}", SB{i})',
+                f'NNB{i} = typing.NewType("NNB{i}", NB{i})',
+                f"FNB{i} = typing.Final[NB{i}]",
+                f'ANB{i} = typing.TypeAliasType("ANB{i}", NB{i})',
+                f'AFB{i} = typing.TypeAliasType("AFB{i}", FB{i})',
+                f"CB{i} = typing.ClassVar[{expr}]",
             ]
         self.src = "\n".join(src) + "\n"
         self.mod = m = mkmod(self.modname, self.src)
@@ -105,6 +117,14 @@ class Family:
                 "fwdref_newtype": refs.forwardref(f"NB{i}", module=self.modname),
                 "fwdref_alias": refs.forwardref(f"AB{i}", module=self.modname),
                 "fwdref_stralias": refs.forwardref(f"SB{i}", module=self.modname),
+                "nt_final": getattr(m, f"NFB{i}"),
+                "nt_alias": getattr(m, f"NAB{i}"),
+                "nt_stralias": getattr(m, f"NSB{i}"),
+                "nt_nt": getattr(m, f"NNB{i}"),
+                "final_nt": getattr(m, f"FNB{i}"),
+                "alias_nt": getattr(m, f"ANB{i}"),
+                "alias_final": getattr(m, f"AFB{i}"),
+                "classvar": getattr(m, f"CB{i}"),
             }
             # the family's "ForwardRef to it" is the reference whose text evaluates to the base in its module
             assert per["fwdref"].__forward_arg__ == names[i] and eval(per["fwdref"].__forward_arg__, m.__dict__) is base  # noqa: S307
@@ -119,6 +139,9 @@ class Family:
         self.keylabel = {k: lb for k, lb in zip(self.keys, self.labels)}
         self.idlabel = {id(k): lb for k, lb in zip(self.keys, self.labels)}  # fast path for the family's own objects
         self.tokens = ["v:" + lb for lb in self.labels]
+        if extended == "falsy":
+            assert self.nk <= len(FALSY)
+            self.tokens = list(FALSY[: self.nk])
         # harness self-checks: the family is what the property says it is
         assert len(self.keylabel) == self.nk, "family keys collide"
         for k, f in zip(self.keys, self.form_of):
@@ -261,8 +284,12 @@ def rel(fam, ki, o):
     if o[0] == "bool":
         return str(o[1])
     v = o[1]
+    kj = None
     if isinstance(v, str) and v[:2] == "v:" and v[2:] in fam.label2ki:
         kj = fam.label2ki[v[2:]]
+    elif fam.extended == "falsy":
+        kj = next((j for j, t in enumerate(fam.tokens) if type(t) is type(v) and t == v), None)
+    if kj is not None:
         if kj == ki:
             return "own-value"
         return ("value-of-" if fam.base_of[kj] == fam.base_of[ki] else "value-of-other-base-") + fam.form_of[kj]
@@ -627,7 +654,7 @@ def _hostile_state(fam, hist, res, X):
 def units(tier):
     nk3 = 3 * len(FORMS)
     return (
-        [("dictlike", "p"), ("order", "p"), ("order", "n"), ("order", "g"), ("closure", "pn"), ("closure", "pg"), ("depth", "png", "root")]
+        [("dictlike", "p"), ("falsy", "p"), ("chains", "p"), ("chains", "n"), ("order", "p"), ("order", "n"), ("order", "g"), ("closure", "pn"), ("closure", "pg"), ("depth", "png", "root")]
         + [("depth", "png", i) for i in range(nk3)]
     )
 
@@ -646,6 +673,8 @@ def meta(tier):
             "closure": "2 bases x 6 forms, pairings (p,n) and (p,g): fixpoint each (all histories of any length)",
             "order": "1 base x 9 forms (6 + forward references naming the NewType/alias/string alias), for each of p, n, g: fixpoint",
             "dictlike": "1 base (p) x 6 forms: fixpoint; key with raising hash probed in every state",
+            "falsy": "1 base (p) x 6 forms, the stored values are None, 0, '', (), frozenset(), b'' (one per key): fixpoint",
+            "chains": "1 base (p, n) x 10 forms: the base, its forward reference, ClassVar[B] and wrappers of wrappers (NewType of Final / alias / string alias / NewType; Final of NewType; alias of NewType / Final): fixpoint",
             "depth": f"3 bases (p,n,g) x 6 forms: every history up to length {DEPTH3[tier]} (last operation probed, not expanded)",
         },
         "assumptions": [
@@ -672,6 +701,9 @@ def run_unit(unit, tier, res):
         fix, depth, n = explore(fam, [()], None, res, X, cap=CLOSURE_CAP)
     elif kind == "order":
         fam = family(kinds, extended=True)
+        fix, depth, n = explore(fam, [()], None, res, X, cap=CLOSURE_CAP)
+    elif kind in ("falsy", "chains"):
+        fam = family(kinds, extended=kind)
         fix, depth, n = explore(fam, [()], None, res, X, cap=CLOSURE_CAP)
     elif kind == "dictlike":
         fam = family(kinds)
@@ -702,7 +734,7 @@ def run_unit(unit, tier, res):
 
 
 def replay(case, tier, res):
-    fam = family(case["kinds"], bool(case.get("extended")))
+    fam = family(case["kinds"], case.get("extended") or False)
     hist = tuple((o, fam.label2ki[lb]) for o, lb in case["history"])
     probe = _parse_probe(fam, case["probe"])
     res.evals += 1
